@@ -228,6 +228,7 @@ func runC04(ctx *h.Ctx) int {
 		}
 		k.Sample("full-program", pr.Src)
 	})
+	rejectGuard(ctx, 0.35)
 	return ctx.Finish(
 		"whole files mixing scripts, text, movement, mart, mapscripts (plain/inline/table), raw, inline text/moves(), poryswitch, AutoVar conditions; with extra weight on labels in unreachable code. Oracle on each output (optimize on and off): every label defined once; every generated jump/case/map-script/hoisted-argument label defined (author-written goto and plain map-script targets may be external); every label statement present once inside its own script; last instruction of every script is return/end/goto; VM runs never fall out of a script, never hit an undefined label. distinct = distinct script body signature",
 		ctx.N(500, 5000),
